@@ -97,6 +97,14 @@ class C02(DocProp):
             words[0] = "Start"
             yield {"kind": "text", "text": " ".join(words) + "\n", "feats": ["space-hazard"], "profile": "space-hazard",
                    "opts": [rand_opts(r, widths=[r.randint(8, 40)], plaintext_p=0.3), rand_opts(r, widths=[r.randint(8, 60)], plaintext_p=0.3)]}
+            if r.random() < 0.15:
+                # headings wrapped in several levels of bold / emphasis, with cleanups on (one run must do what two runs do)
+                core = r.choice(["alpha beta", "x", "one two"])
+                hs = [r.choice(["****{}****", "**__{}__**", "__**{}**__", "***{}***", "*****{}*****", "**_**{}**_**", "******{}******", "**{}**",
+                                "_**__{}__**_"]).format(core) for _ in range(r.randint(1, 3))]
+                text = "\n\n".join(("# " + h) if r.random() < 0.7 else (h + "\n===") for h in hs) + "\n\nBody.\n"
+                yield {"kind": "text", "text": text, "feats": ["cleanup-hazard"], "profile": "cleanup-hazard",
+                       "opts": [rand_opts(r, force={"cleanups": True}), rand_opts(r, force={"cleanups": True})]}
             if r.random() < 0.1:
                 # sub-workload of the listed finding KF-C02-list-inside-footnote-definition (G-doc keeps lists out of footnotes)
                 yield {"kind": "text", "text": "[^1]: para one\n\n    - a\n    - b\n\n    " + r.choice(["```\n    code\n    ```", "> quote", "more text"]) + "\n\nx[^1]\n",
